@@ -681,6 +681,11 @@ func (u *Unit) evalLoc(env *SpecEnv, e Expr) *specLoc {
 			if !ok {
 				u.specErr("modifies *%s: not a pointer", x.X.exprString())
 			}
+			if base.T == nil && base.P != nil {
+				// the address of a field or element passed as an argument: the pointed-to component is
+				// havoced by the call rule for interior pointers, not through a heap row
+				return nil
+			}
 			return &specLoc{key: "P:" + TypeKey(pt.Elem()), ref: base.T}
 		}
 	case *EIdent, *EField:
@@ -1055,9 +1060,35 @@ func (u *Unit) defineSpecFunc(env *SpecEnv, sf *SpecFunc) *specDef {
 	if sf.Rec {
 		kw = "define-fun-rec"
 	}
+	if u.opaqueSpec(sf.Name) {
+		// `opt opaque=f,g`: this unit sees only the signature (sound: strictly less information);
+		// keeps large quantified definitions out of units that merely pass the predicate along
+		var sorts []string
+		for _, p := range params {
+			p = strings.TrimSuffix(strings.TrimPrefix(p, "("), ")")
+			if i := strings.Index(p, " "); i >= 0 {
+				sorts = append(sorts, p[i+1:])
+			}
+		}
+		u.W.Declare(d.smtName, fmt.Sprintf("(declare-fun %s (%s) %s)", d.smtName, strings.Join(sorts, " "), d.resSort))
+		u.specDefs[sf.Name] = d
+		return d
+	}
 	u.W.Declare(d.smtName, fmt.Sprintf("(%s %s (%s) %s %s)", kw, d.smtName, strings.Join(params, " "), d.resSort, body.String()))
 	u.specDefs[sf.Name] = d
 	return d
+}
+
+func (u *Unit) opaqueSpec(name string) bool {
+	if u.C == nil || u.C.Opts == nil {
+		return false
+	}
+	for _, n := range strings.Split(u.C.Opts["opaque"], ",") {
+		if strings.TrimSpace(n) == name {
+			return true
+		}
+	}
+	return false
 }
 
 func (u *Unit) specBV(env *SpecEnv, op string, a, b Value) Value {
